@@ -572,17 +572,28 @@ def run_property(cfg, tier, seed):
     cfg keys: id, family, allow_axioms, nshards{tier}, nontrivial(case, impl), rule,
     trusted (extra trusted-base lines), assumptions, known(case, impl, model, spec) -> finding id|None,
     differs (optional), extra_args(tier) (optional), post(res) (optional extra checks),
-    shrink_candidates(case) -> [case] and shrink_budget (optional, see `shrink`)."""
+    shrink_candidates(case) -> [case] and shrink_budget (optional, see `shrink`),
+    pre_build(vf) -> {"failures": [text], "notes": {..}, "details": {..}} (optional): runs before the
+    Props build (e.g. regenerates a generated .v file from the tree under check); its failures are
+    broken proof obligations, its notes go to the evidence (coverage.pre_build), its details to the replay."""
     t0 = time.time()
     pid = cfg["id"]
     fam = cfg["family"]
     violations = []          # (kind, text, replay payload)
     known_lines = []
 
+    # 0. property-specific preparation of the build
+    pre = {"failures": [], "notes": {}, "details": {}}
+    if "pre_build" in cfg:
+        try:
+            pre = cfg["pre_build"](sys.modules[__name__])
+        except Exception as e:      # a hook never crashes the check: it is a broken obligation
+            pre = {"failures": [f"pre_build hook of {pid} failed: {e!r}"], "notes": {"error": repr(e)}, "details": {}}
+
     # 1. proofs
     bad = audit_sources()
     proof = check_props_file(pid, cfg.get("allow_axioms", []))
-    proof_failures = [f"forbidden construct: {b}" for b in bad] + proof["failures"]
+    proof_failures = [f"forbidden construct: {b}" for b in bad] + pre["failures"] + proof["failures"]
     coqchk_summary = "not run (quick tier)"
     if tier == "thorough" and not proof["failures"]:
         cf, coqchk_summary = coqchk_props(pid, cfg.get("allow_axioms", []))
@@ -678,6 +689,8 @@ def run_property(cfg, tier, seed):
         concrete = any(v[0] == "corr" for v in violations)
         payload = {"kind": "proof", "property": pid, "no_longer_checks": proof_failures,
                    "theorems": proof["theorems"], "concrete_input_found": concrete}
+        if pre.get("details"):
+            payload["pre_build"] = pre["details"]
         violations.insert(0, ("proof", "; ".join(x.split("\n")[0] for x in proof_failures)[:300], payload))
 
     # 4. evidence
@@ -699,6 +712,8 @@ def run_property(cfg, tier, seed):
         "coqchk": coqchk_summary,
         "in_coq_crosscheck": xinfo if res else {"checked": 0},
     }
+    if "pre_build" in cfg:
+        cov["pre_build"] = pre.get("notes", {})
     write_evidence(pid, tier, seed, cov, cfg.get("assumptions", []), time.time() - t0, len(violations), cfg.get("level", "proof"))
 
     for ln in known_lines:
